@@ -241,9 +241,11 @@ def run(chk, replay_rec):
         chk.violation("schedule:%s:%s" % (e["key"], full_e["sched"].strip().replace(" ", ",")),
                       "forced schedule [%s] of the evaluation pool gives a different triangle sequence than the sequential schedule" % full_e["sched"].strip(),
                       dict(vectors=ref + culprit))
+    # schedules the code does not follow are a machinery problem (exit 2) - but the free-running stage is independent
+    # of the scheduler gate and still says something about the tree: run it first
+    det = free_runs(chk)
     if unreal > len(obs) // 50:
         raise vlib.Inconclusive("%d of %d schedules could not be realised on the real code" % (unreal, len(obs)))
-    det = free_runs(chk)
     chk.sample(dict(schedule=obs[1]["sched"], digest=obs[1]["digest"], triangles=obs[1]["nt"], layers=obs[1]["layers"]))
     chk.sample(dict(free_run=det[0]))
     chk.cov.update(dict(schedules_forced=len(obs), schedules_unrealised=unreal, distinct_schedules=len(scheds),
